@@ -207,6 +207,60 @@ theorem slow_refresh_bound (c : Consts) (env : Env) (hq : Quiet env) (D E : Nat)
   unfold slowC at h2
   omega
 
+/-- **slow_refresh_bound, for the whole thread body**: start-up round, then any number of turns.  `loopStart` is the
+clock when the start-up round is over (whether it was completed or cut short by a communication failure). -/
+theorem slow_refresh_bound_thread (c : Consts) (env : Env) (hq : Quiet env) (D E : Nat) (hb : Bounded env D E)
+    (σ : PollState) (i p : Nat) (m : Mod) (hm : σ.mods[i]? = some m) (he : m.enabled = true) (hp : p ∈ m.polled)
+    (hS : 0 < m.slow) (hls : m.lastSlow ≤ σ.clock) (hk : σ.stamp i p ≤ σ.refreshed i p) (ht : σ.toPoll = none)
+    (k : Nat) :
+    (thread c env k σ).σ.clock ≤
+      max ((thread c env k σ).σ.refreshed i p) (prologue c env σ).σ.clock +
+        slowBound m.slow (allEntries 0 σ.mods).length σ.mods.length D E := by
+  have st := prologue_step c env hq i p σ
+  obtain ⟨m', hm', hsp⟩ := slowPart_get (prologue c env σ).σ.mods σ.mods st.slow i m hm
+  simp only [slowPart, Prod.mk.injEq] at hsp
+  have hN : (allEntries 0 (prologue c env σ).σ.mods).length = (allEntries 0 σ.mods).length := by
+    rw [allEntries_congr _ _ 0 (slowPart_ep _ _ st.slow)]
+  have hn : (prologue c env σ).σ.mods.length = σ.mods.length := by
+    have := congrArg List.length st.slow
+    simpa only [List.length_map] using this
+  have h := slow_refresh_bound c env hq D E hb (prologue c env σ).σ i p m' hm' (by rw [hsp.1]; exact he)
+    (by rw [hsp.2.1]; exact hp) (by rw [hsp.2.2.1]; exact hS) (by rw [hsp.2.2.2]; exact Nat.le_trans hls st.clk)
+    (st.k hk) (by rw [st.poll]; exact ht) k
+  rw [hN, hn, hsp.2.2.1] at h
+  unfold thread
+  rw [run_σ_indep]
+  exact h
+
+/-- **the ghost means what it says.**  `refreshed i p` changes in two places only, and each time to the moment of a
+genuine refresh: at the start of a call it becomes the clock iff the call is `read_p` of module `i`; a time stamp
+given to `(i, p)` makes it that stamp; in both cases only if that is later than what it was.  Clock reads, waits,
+actions of other threads and the bookkeeping of the loop leave it alone (`Step`/`doWait_ghost` in the lemmas). -/
+theorem refreshed_is_a_refresh (σ : PollState) (i p : Nat) :
+    (∀ (m : Nat) (f : Fn), (noteRead σ m f).refreshed i p = σ.refreshed i p ∨
+      (f = Fn.read p ∧ m = i ∧ (noteRead σ m f).refreshed i p = σ.clock)) ∧
+    (∀ t : Touch, (applyTouch σ t).refreshed i p = σ.refreshed i p ∨
+      (t.m = i ∧ t.p = p ∧ (applyTouch σ t).refreshed i p = t.stamp)) ∧
+    (∀ env : Env, (readClock env σ).refreshed i p = σ.refreshed i p) ∧
+    (∀ e : Ext, (applyExt σ e).refreshed i p = σ.refreshed i p) := by
+  refine ⟨?_, ?_, fun _ => rfl, fun _ => rfl⟩
+  · intro m f
+    simp only [noteRead]
+    by_cases h : f = Fn.read p ∧ i = m
+    · rw [if_pos h]
+      by_cases hle : σ.refreshed i p ≤ σ.clock
+      · exact Or.inr ⟨h.1, h.2.symm, Nat.max_eq_right hle⟩
+      · exact Or.inl (Nat.max_eq_left (by omega))
+    · rw [if_neg h]; exact Or.inl rfl
+  · intro t
+    simp only [applyTouch, bump]
+    by_cases h : i = t.m ∧ p = t.p
+    · rw [if_pos h]
+      by_cases hle : σ.refreshed i p ≤ t.stamp
+      · exact Or.inr ⟨h.1.symm, h.2.symm, Nat.max_eq_right hle⟩
+      · exact Or.inl (Nat.max_eq_left (by omega))
+    · rw [if_neg h]; exact Or.inl rfl
+
 /-- **slow-poll progress** (every environment, no hypotheses): the loop never sleeps beyond a slow due time
 `last_slow + slowinterval` of a polled module; a turn that finds the iterator alive does not wait (it is the sweep
 followed by the slow phase); a slow phase that finds a stale entry calls exactly that parameter's read function and
